@@ -166,7 +166,7 @@ func c11Run(c *fx.Ctx) {
 			return fmt.Sprintf("%s:%s@%s", sp.name, e.K.String(), ctx)
 		}
 	}
-	maxBytesFull := c.Pick(7, 9)
+	maxBytesFull := c.Pick(7, 10)
 	for _, sp := range arrSpecs() {
 		// contents
 		type cont struct {
